@@ -424,7 +424,11 @@ def F_rules(ctx, rule="F"):
         if "RESULT" not in s["roles"]:
             continue
         cb = s["body"]
-        if cb.kind == "coroutine" and s["fn"].endswith("::recv"):
+        if s.get("lifted"):
+            # `WrapperStream::new(result_rx).collect().await` in the entry's own async body
+            par = cb
+            site = (cb, s["bb"])
+        elif cb.kind == "coroutine" and s["fn"].endswith("::recv"):
             # `while let Some(e) = result_rx.recv().await { results.push(e) }` in the entry's own async body
             par = cb
             site = (cb, s["bb"])
@@ -1166,10 +1170,22 @@ def O3b(ctx, rule="O3b"):
                         srcs = sources_of_expr(ctx, b, v[2], mode="taint")
                         if any(x.kind == "alloc" and x[4] in NODE_COUNT_FNS for x in srcs):
                             dec_blocks.append(bb)
+            def atomic_dec(xb, t_):
+                # `countdown.fetch_sub(1, ..)` on an atomic initialised from node_count()
+                p_ = callee_path(t_) or ""
+                if p_.startswith("std::sync::atomic::Atomic") and p_.endswith("::fetch_sub") and len(t_["args"]) >= 2 and \
+                        is_const(strip_refs(expr_operand(xb, t_["args"][1])), 1):
+                    return any(x.kind == "alloc" and x[4] in NODE_COUNT_FNS for x in fl.sources_operand(xb, t_["args"][0], (), "taint"))
+                return False
+            for bb, t in b.calls():
+                if atomic_dec(b, t):
+                    dec_blocks.append(bb)
             for bb, t in b.calls():
                 p = callee_path(t)
                 if p in fb.bodies:
                     for hb in m.reach_bodies(p):
+                        if any(atomic_dec(hb, t2_) for _, t2_ in hb.calls()):
+                            dec_blocks.append(bb)
                         for ds in get_defs(hb).through.values():
                             for kind_, bb_, si_, st_ in ds:
                                 v = expr_rvalue(hb, st_["rv"], 0, (bb_, si_))
